@@ -78,6 +78,20 @@ def structure_case(task):
     tag = f"GKLS({n},{k})"
     # "function (n, k) is always the same function": constructed again and again in this process (with a different
     # member in between) the tables must be bit-identical to the first construction
+    # the same member asked for with numpy integers (an element of np.arange, a 0-d array): the same function
+    for spelled, how in ((np.int64(k), "np.int64"), (np.int32(k), "np.int32")):
+        try:
+            from iOpt.problems.GKLS import GKLS as _G
+            g2 = _G(np.int64(n) if how == "np.int64" else n, spelled)
+            mm = g2.function.GKLS_minima
+            if not (np.array_equal(np.array(mm.local_min, dtype=float), S.M) and np.array_equal(np.array(mm.f, dtype=float), S.f)):
+                msgs.append(f"{tag}: GKLS({n}, {how}({k})) does not have the tables of GKLS({n},{k})")
+            else:
+                v1, v2 = gkls.value(g2, S.M[3] * 0.5 + 0.1), gkls.value(S.p, S.M[3] * 0.5 + 0.1)
+                if v1 != v2:
+                    msgs.append(f"{tag}: GKLS({n}, {how}({k})) evaluates to {v1!r} where GKLS({n},{k}) gives {v2!r}")
+        except Exception as e:
+            msgs.append(f"{tag}: GKLS({n}, {how}({k})) raised {type(e).__name__}: {e}")
     for rep in range(2, 6):
         if rep == 4:
             other = gkls.make(n, k % 100 + 1)
@@ -283,6 +297,8 @@ def run(ctx):
         res.add_violation(dict(driver="golden", message="golden/gkls.json is missing", sig={}))
     # suite literal
     from iOpt.problems.GKLS import GKLS
+    for mm_ in optimized_interpreter():
+        res.add_violation(dict(driver="optimized", message=mm_, sig={}))
     v = gkls.value(GKLS(3), [0.9, 0.5, 0.3])
     if v != 0.93113217376043778:
         res.add_violation(dict(driver="literal", message=f"GKLS(3,1) at (0.9,0.5,0.3) = {v!r}, suite literal 0.93113217376043778", sig={}))
@@ -311,7 +327,29 @@ def run(ctx):
     return res
 
 
+def optimized_interpreter():
+    """the same values from an interpreter started with -O (assert statements stripped): -> messages"""
+    import subprocess, sys, os, json
+    code = ("import json,numpy as np\nfrom iOpt.problems.GKLS import GKLS\nfrom iOpt.trial import Point, FunctionValue\n"
+            "out={}\nfor n,k in ((2,1),(3,7),(4,50),(5,100)):\n"
+            "    g=GKLS(n,k); pts=[np.full(n,0.3), -np.full(n,0.55)]\n"
+            "    out[f'{n},{k}']=[float(g.Calculate(Point(p,[]),FunctionValue()).value).hex() for p in pts]\nprint('OUT'+json.dumps(out))")
+    res = []
+    for flag in ("-c", "-O"):
+        cmd = [sys.executable] + (["-O"] if flag == "-O" else []) + ["-c", code]
+        p = subprocess.run(cmd, capture_output=True, text=True, env=dict(os.environ))
+        line = [l for l in p.stdout.splitlines() if l.startswith("OUT")]
+        res.append(json.loads(line[0][3:]) if line else {"error": p.stderr[-300:]})
+    if res[0] != res[1]:
+        bad = [k for k in res[0] if res[1].get(k) != res[0][k]] or list(res[1])
+        return [f"GKLS values from an interpreter started with -O differ from the ordinary interpreter for {bad}: "
+                f"{ {k: res[1].get(k) for k in bad[:2]} } vs { {k: res[0].get(k) for k in bad[:2]} } {res[1].get('error', '')}"]
+    return []
+
+
 def replay(rec):
+    if rec.get("driver") == "optimized":
+        return optimized_interpreter()
     d = rec["driver"]
     if d == "structure":
         gold = json.load(open(GOLD)) if os.path.exists(GOLD) else {}
